@@ -195,7 +195,9 @@ func TestNumbering(t *testing.T) {
 		noise := am.Noise{Explicit: rapid.Bool().Draw(rt, "explicit"), FullCallType: rapid.Bool().Draw(rt, "fullCalleeType"), LeadingZeros: rapid.IntRange(0, 2).Draw(rt, "leadingZeros") == 0,
 			// callee types spelled through named function types: whether a call defines a value (and takes a
 			// number) is decided by the type the name denotes
-			FnAlias: rapid.IntRange(0, 2).Draw(rt, "fnAlias") == 0}
+			FnAlias: rapid.IntRange(0, 2).Draw(rt, "fnAlias") == 0,
+			// unnamed definitions spelled with the empty quoted name (`@"" = ...`, `%"" = ...`)
+			EmptyQuoted: rapid.IntRange(0, 2).Draw(rt, "emptyQuoted") == 0}
 		hx.Eval(1)
 		if checkCase(rt, test, m, noise) {
 			u, nn, gk := shape(m)
